@@ -2,7 +2,8 @@ from .indices import (get_symbols, order_substitutions, Index,
                       get_lowest_avail_indices, minimize_tensor_indices)
 from .misc import Inputerror
 from .sympy_objects import (
-    KroneckerDelta, Amplitude, AntiSymmetricTensor, NonSymmetricTensor
+    KroneckerDelta, Amplitude, AntiSymmetricTensor, NonSymmetricTensor,
+    SymbolicTensor
 )
 from .tensor_names import is_adc_amplitude, is_t_amplitude
 from . import expr_container as e
@@ -712,6 +713,13 @@ def remove_tensor(expr: e.Expr, t_name: str) -> dict:
             if obj.name == t_name:
                 tensors.append(obj)  # we take care of the exponent later!
             else:
+                if isinstance(obj, e.Polynom) and any(
+                        t.name == t_name
+                        for t in obj.sympy.atoms(SymbolicTensor)):
+                    raise NotImplementedError("Did not implement the case of "
+                                              f"removing the tensor {t_name} "
+                                              f"from the polynom {obj} in "
+                                              f"{term}.")
                 remaining_term *= obj
         if not tensors:  # could not find the tensor
             return {("none",): term}
@@ -774,6 +782,11 @@ def remove_tensor(expr: e.Expr, t_name: str) -> dict:
                          "object.")
     if not isinstance(t_name, str):
         raise Inputerror("Tensor name needs to be provided as string.")
+
+    # the tensor can only be found if it is an object of the term and not
+    # hidden in a polynom, e.g., (d_ij + d_ji) * X_ij
+    # -> expand the expression (without modifying the input expression)
+    expr = e.Expr(expr.sympy.expand(), **expr.assumptions)
 
     ret = {}  # expr sorted by tensor block
     for term in expr.terms:
